@@ -17,3 +17,11 @@ PROP = dict(
                 "discharged by z3; idempotence is the second contract of heartbeat_reduce (identity on normal forms) "
                 "combined with its normal-form postcondition",
 )
+F = "/repo/aw_transform/heartbeats.py"
+MUTANTS = [
+    (F, "last_event.duration = max((last_event.duration, new_duration))", "last_event.duration = new_duration", True),              # a nested heartbeat shortens the event
+    (F, "last_event.timestamp <= heartbeat.timestamp <= pulseperiod_end", "last_event.timestamp <= heartbeat.timestamp < pulseperiod_end", True),   # gap equal to the pulsetime no longer merges
+    (F, "if last_event.duration < timedelta(0):", "if last_event.duration <= timedelta(0):", True),                                  # zero-length events never merge
+    (F, "            reduced.append(heartbeat)\n    return reduced", "            reduced.append(heartbeat)\n    return reduced[:]", False),  # a copy of the same list contents
+    (F, ") + heartbeat.duration\n", ") + heartbeat.duration + timedelta(0)\n", False),
+]
